@@ -346,7 +346,41 @@ def r13i(ctx):
     forwarding(ctx, "R13i", {"pyrex.generation"}, "generators")
 
 
+def r13j(ctx):
+    """`energies from the supplied source`: the i-th event carries the i-th value the source yields.  The source may be stateful (a
+    tabulated spectrum, an iterator, a private RNG), so it is consulted exactly once per created event and nowhere else -- in particular not
+    "to validate it" at construction."""
+    repo = ctx.repo
+    ctx.rule("R13j", "the energy source is called once per created event (in create_event, outside any loop) and by no other method of the random generators", expected=2, kind="N")
+    mod = repo.modules["pyrex.generation"]
+    sites = []
+    for q, body, i, fn in __import__("pvx.core.canon", fromlist=["x"]).outer_functions(mod, "pyrex.generation"):
+        params = {a_.arg for a_ in fn.args.args + fn.args.kwonlyargs}
+        for c in ast.walk(fn):
+            if not isinstance(c, ast.Call):
+                continue
+            f = c.func
+            if (isinstance(f, ast.Attribute) and f.attr == "get_energy" and isinstance(f.value, ast.Name) and f.value.id == "self") \
+                    or (isinstance(f, ast.Name) and f.id == "energy" and "energy" in params):
+                sites.append((q, c))
+    ctx.analysed["energy_source_call_sites"] = [q for q, _ in sites]
+    in_create = [(q, c) for q, c in sites if q == f"{G}.create_event"]
+    others = [(q, c) for q, c in sites if q != f"{G}.create_event"]
+    ok = len(in_create) == 1
+    if ok:
+        n, c = in_create[0][1], in_create[0][1]
+        while n is not None and not isinstance(n, ast.FunctionDef):
+            if isinstance(n, (ast.For, ast.While, ast.ListComp, ast.GeneratorExp, ast.SetComp, ast.DictComp, ast.Lambda)):
+                ok = False
+            n = parent(n)
+    ctx.check(ok, "R13j", f"{G}.create_event", "exactly one call of the energy source per created event, outside any loop", f"{len(in_create)} call(s)",
+              key_detail="one draw per event", loc=ctx.loc("pyrex.generation", repo.member(G, "create_event")))
+    ctx.check(not others, "R13j", f"{G}", "no other method of pyrex.generation calls the energy source", "; ".join(f"{q} calls it (line {c.lineno})" for q, c in others),
+              key_detail="no draw outside create_event", loc=(ctx.loc("pyrex.generation", others[0][1]) if others else None), pointed=bool(others))
+
+
 def run(ctx):
+    ctx.guard(r13j)
     ctx.guard(r13i)
     ctx.guard(r13h)
     ctx.guard(r13a)
@@ -360,6 +394,8 @@ def run(ctx):
 
 SELFTEST = {
     "faults": [
+        {"name": "energy source probed once at construction", "file": "pyrex/generation.py", "old": "        self.get_energy = energy\n        self.shadow = shadow",
+         "new": "        float(energy())\n        self.get_energy = energy\n        self.shadow = shadow", "rule": "R13j"},
         {"name": "sign slip in the second wall point", "file": "pyrex/generation.py", "old": "            x1 = (-slope*b + np.sqrt(-b**2 + a*self.dr**2)) / a", "new": "            x1 = (slope*b + np.sqrt(-b**2 + a*self.dr**2)) / a",
          "rule": "R13h"},
         {"name": "cap point uses the wrong direction component", "file": "pyrex/generation.py",
